@@ -716,6 +716,7 @@ def cylindrical_surface(
 
     if transformed_array is not None:
         if not transformed and radius is None:
+            data = np.asarray(data)
             radius = np.hypot(data[:, 0], data[:, 1])
     if radius is None:
         radius = 1
